@@ -82,6 +82,11 @@ C03Fails(t) ==
           ELSE UNION { LET e == t.commits[k] IN
                        If(Cardinality({ j \in after : t.commits[j].id = e.id /\ t.commits[j].v = e.v })
                             <= Count(evs, e.id, e.v, TRUE), "C03:commit-not-delivered") : k \in after })
+    \* what the subscriber holds outside the tracked field: the whole message without a read mask (also when
+    \* another subscriber of the same resource has one), nothing of it with one
+    \cup UNION { IF evs[k].v = Absent THEN {}
+                ELSE IF t.kinds[s].masked THEN If(evs[k].rest = 0, "C06:read-mask-not-applied-to-event")
+                ELSE If(evs[k].rest = 1, "C03:view-lost-fields-outside-another-subscribers-mask") : k \in 1..Len(evs) }
     \* seeds come first
     \cup If(\A j, k \in 1..Len(evs) : j < k /\ evs[k].seed => evs[j].seed, "C03:seed-after-update")
     \cup If(t.kinds[s].uo => \A k \in 1..Len(evs) : ~evs[k].seed, "C03:seed-on-updates-only")
